@@ -340,7 +340,7 @@ class Script:
 
     def __init__(self, root: str, oracle=None, dir_raise=(), dir_false=(), file_raise=(), file_false=(),
                  skip_val=(), err_val=(), skip_all=False, err_all=False, cmp_file_raise=(), cmp_dir_raise=(),
-                 kill_at=None, hook_raise=None):
+                 kill_at=None, hook_raise=None, reset_at=()):
         self.root = root.rstrip('/') + '/'
         self.oracle = oracle                 # None: the real flag
         self.dir_raise, self.dir_false = set(dir_raise), set(dir_false)
@@ -349,6 +349,7 @@ class Script:
         self.skip_all, self.err_all = skip_all, err_all
         self.cmp_file_raise, self.cmp_dir_raise = set(cmp_file_raise), set(cmp_dir_raise)
         self.kill_at = kill_at               # the k-th hook invocation of a run calls kill()
+        self.reset_at = set(reset_at)        # these hook invocations of a run call reset() (non-monotone histories)
         self.hook_raise = hook_raise         # (kind, key): on_match / on_skip / on_error raises there (not modelled)
         self.log: list[str] = []
         self.polls = self.hooks = self.yields = 0
@@ -393,6 +394,8 @@ def rec_class():
             s.log.append(tag + (enc(rel) if rel is not None else ''))
             if s.kill_at is not None and s.kill_at == s.hooks:
                 self.kill()
+            if s.reset_at and s.hooks in s.reset_at:
+                self.reset()
 
         def is_aborted(self):
             s = self.k7
